@@ -7,3 +7,109 @@ try:
     REPLAYERS.update(getattr(_ring, "REPLAYERS", {}))
 except ImportError:
     _ring = None
+
+import numpy, z3
+from pyvc import sym, barr, modeb, loopcut
+from pyvc.sym import cur, _t, ite
+
+GMA = "pybrops/model/gmod/DenseAdditiveLinearGenomicModel.py"
+GMD = "pybrops/model/gmod/DenseAdditiveDominanceLinearGenomicModel.py"
+R = lambda x: (z3.ToReal(_t(x)) if _t(x).sort() == z3.IntSort() else _t(x))
+
+
+def _pop(n, p):
+    from pybrops.popgen.gmat.DensePhasedGenotypeMatrix import DensePhasedGenotypeMatrix
+    from pybrops.popgen.gmat.DenseGenotypeMatrix import DenseGenotypeMatrix
+    mat = barr.fresh("h", (2, n, p), "int8", 0, 1)
+    taxa = numpy.array(["T%d" % i for i in range(n)], dtype=object)
+    grp = numpy.asarray(list(range(n)), dtype="int64")
+    pg = DensePhasedGenotypeMatrix(mat=mat, taxa=taxa, taxa_grp=grp)
+    ug = DenseGenotypeMatrix(mat=mat.sum(0).astype("int8"), taxa=taxa.copy(), taxa_grp=grp.copy(), ploidy=2)
+    dos = [[mat[0, i, j] + mat[1, i, j] for j in range(p)] for i in range(n)]
+    return pg, ug, mat, dos, taxa, grp
+
+
+@unit(P, "B[gebv/gegv == intercept contrast + dosage x effects (+ heterozygosity x dominance effects); labels carried; input-form independent]",
+      "B", bounded=True, targets=[GMA + ":DenseAdditiveLinearGenomicModel.gebv", GMA + ":DenseAdditiveLinearGenomicModel.gebv_numpy",
+                                  GMD + ":DenseAdditiveDominanceLinearGenomicModel.gegv"],
+      note="bounded(shape): ntaxa<=2, nvrnt<=2, ntrait<=2, nfixed<=2; genotypes, effects, intercepts symbolic; the scaled output "
+           "matrix is intercepted at from_numpy (its round trip is C15)")
+def u_b_predict(ctx):
+    captured = []
+
+    class BV:
+        @staticmethod
+        def from_numpy(mat=None, taxa=None, taxa_grp=None, trait=None, **kw):
+            captured.append(dict(mat=mat, taxa=taxa, taxa_grp=taxa_grp, trait=trait))
+            return ("bvmat", len(captured))
+    fa = loopcut.Extracted(GMA + ":DenseAdditiveLinearGenomicModel.gebv", overrides={"DenseGenomicEstimatedBreedingValueMatrix": BV})
+    fd = loopcut.Extracted(GMD + ":DenseAdditiveDominanceLinearGenomicModel.gegv", overrides={"DenseGenomicEstimatedBreedingValueMatrix": BV})
+
+    def body(e, shape, tag):
+        from pybrops.model.gmod.DenseAdditiveLinearGenomicModel import DenseAdditiveLinearGenomicModel as A
+        from pybrops.model.gmod.DenseAdditiveDominanceLinearGenomicModel import DenseAdditiveDominanceLinearGenomicModel as D
+        n, p, t, q = shape
+        pg, ug, mat, dos, taxa, grp = _pop(n, p)
+        beta = barr.fresh("beta", (q, t), "float64")
+        ua = barr.fresh("ua", (p, t), "float64")
+        ud = barr.fresh("ud", (p, t), "float64")
+        trait = numpy.array(["t%d" % i for i in range(t)], dtype=object)
+        ma = A(beta=beta, u_misc=None, u_a=ua, trait=trait)
+        md = D(beta=beta, u_misc=None, u_a=ua, u_d=ud, trait=trait)
+        icpt = [R(beta[0, k]) + sum((R(beta[l, k]) for l in range(1, q)), z3.RealVal(0)) / q for k in range(t)]
+        add = [[icpt[k] + sum((R(dos[i][j]) * R(ua[j, k]) for j in range(p)), z3.RealVal(0)) for k in range(t)] for i in range(n)]
+        het = [[z3.If(z3.And(_t(dos[i][j]) != 0, _t(dos[i][j]) != 2), z3.RealVal(1), z3.RealVal(0)) for j in range(p)] for i in range(n)]
+        dom = [[add[i][k] + sum((het[i][j] * R(ud[j, k]) for j in range(p)), z3.RealVal(0)) for k in range(t)] for i in range(n)]
+        raw = mat.sum(0).astype("int8")
+        for nm, model, f, spec in (("gebv", ma, fa, add), ("gegv", md, fd, dom)):
+            for form, gt in (("phased", pg), ("unphased", ug), ("raw", raw)):
+                del captured[:]
+                out = f(model, gt)
+                e.prove("%s:%s(%s):one-output-built-by-from_numpy" % (tag, nm, form), len(captured) == 1 and out == ("bvmat", 1))
+                c = captured[0]
+                e.prove("%s:%s(%s):values==definition" % (tag, nm, form),
+                        z3.And(*[R(c["mat"][i, k]) == spec[i][k] for i in range(n) for k in range(t)]))
+                if form != "raw":
+                    e.prove("%s:%s(%s):taxon-labels-carried" % (tag, nm, form),
+                            list(c["taxa"]) == list(taxa) and [int(x) for x in c["taxa_grp"]] == list(range(n)) and list(c["trait"]) == list(trait))
+        gn = ma.gebv_numpy(raw)
+        e.prove(tag + ":gebv_numpy==Z@u_a", z3.And(*[R(gn[i, k]) == add[i][k] - icpt[k] for i in range(n) for k in range(t)]))
+        return "ok"
+    shapes = [(1, 1, 1, 1), (2, 1, 2, 1), (2, 2, 1, 2)] + ([(2, 2, 2, 2), (3, 2, 1, 1)] if ctx.tier == "thorough" else [])
+    modeb.run_shapes(ctx, "predict", shapes, body)
+
+
+@unit(P, "B[favourable / deleterious / neutral allele counts, availability, fixation and polymorphism flags == definitions]", "B",
+      bounded=True, targets=[GMA + ":DenseAdditiveLinearGenomicModel.facount", GMA + ":DenseAdditiveLinearGenomicModel.dacount"],
+      note="bounded(shape): ntaxa<=2, nvrnt<=2, ntrait<=2; genotypes and effects (all signs, exact zeros) symbolic")
+def u_b_alleles(ctx):
+    def body(e, shape, tag):
+        from pybrops.model.gmod.DenseAdditiveLinearGenomicModel import DenseAdditiveLinearGenomicModel as A
+        n, p, t = shape
+        pg, ug, mat, dos, taxa, grp = _pop(n, p)
+        ua = barr.fresh("ua", (p, t), "float64")
+        m = A(beta=barr.fresh("beta", (1, t), "float64"), u_misc=None, u_a=ua, trait=numpy.array(["t%d" % i for i in range(t)], dtype=object))
+        tot = 2 * n
+        cnt = [sum((dos[i][j] for i in range(n)), 0) for j in range(p)]
+        for gname, g in (("phased", pg), ("unphased", ug)):
+            fa, da = m.facount(g), m.dacount(g)
+            ok = []
+            for j in range(p):
+                for k in range(t):
+                    u, c = R(ua[j, k]), _t(cnt[j])
+                    fav = z3.If(u > 0, c, z3.If(u < 0, tot - c, 0))
+                    dele = z3.If(u < 0, c, z3.If(u > 0, tot - c, 0))
+                    ok.append(z3.And(_t(fa[j, k]) == fav, _t(da[j, k]) == dele))
+            e.prove("%s:%s:facount/dacount==definition" % (tag, gname), z3.And(*ok))
+            av, fx, po = m.faavail(g), m.fafixed(g), m.fapoly(g)
+            nf, npo = m.nafixed(g), m.napoly(g)
+            fl = []
+            for j in range(p):
+                for k in range(t):
+                    u, c = R(ua[j, k]), _t(cnt[j])
+                    fav = z3.If(u > 0, c, z3.If(u < 0, tot - c, 0))
+                    fl.append(z3.And(_t(av[j, k]) == (fav > 0), _t(fx[j, k]) == (fav == tot), _t(po[j, k]) == z3.And(fav > 0, fav < tot),
+                                     _t(nf[j, k]) == z3.And(u == 0, z3.Or(c == 0, c == tot)), _t(npo[j, k]) == z3.And(u == 0, c > 0, c < tot)))
+            e.prove("%s:%s:availability/fixation/polymorphism/neutral flags==definition" % (tag, gname), z3.And(*fl))
+        return "ok"
+    modeb.run_shapes(ctx, "alleles", [(1, 1, 1), (2, 1, 2), (2, 2, 1)], body, max_paths=20000)
